@@ -160,20 +160,48 @@ pub fn run_bump(data: &[u8], ctx: &mut Ctx) -> CaseResult {
 /// holding the previous version) made of the response stream: error stage (if
 /// any), the kinds of the updates it produced, and whether interpreter and
 /// updater consider the transfer finished.
-type ClientView = (Option<&'static str>, Vec<u8>, bool, bool);
+/// ... plus the SOA serial of the receiving zone afterwards, relative to the
+/// previous version's serial, and the number of non-SOA RRsets it holds.
+type ClientView = (Option<&'static str>, Vec<u8>, bool, bool, Option<u32>, usize);
 type Shape = (Vec<(Vec<u8>, u16, u32, Vec<u8>)>, ClientView);
 
-fn ixfr_shape(apex: &Vec<Vec<u8>>, old_t: &VersionM, new_t: &VersionM, a: u32, step: u32, client_off: u32, id: u16, strict: bool) -> Result<Option<Shape>, String> {
+fn ixfr_shape(apex: &Vec<Vec<u8>>, old_t: &VersionM, new_t: &VersionM, a: u32, step: u32, client_off: u32, id: u16, strict: bool, nmid: usize) -> Result<Option<Shape>, String> {
     let mut old = old_t.clone();
     let mut new = new_t.clone();
     old.soa.serial = a;
     new.soa.serial = rs::add(a, step);
     let client = a.wrapping_add(client_off);
-    let (zone, diff) = match (zone_from_version(apex, &new), model_diff(apex, &old, &new)) {
-        (Ok(z), Ok(d)) => (z, d),
-        _ => return Ok(None),
+    // the history between the previous and the current version: nmid
+    // intermediate versions (each adds one record), i.e. nmid + 1 diffs that
+    // the provider hands out oldest first (RFC 1995 section 4)
+    let mut versions = vec![old.clone()];
+    for k in 1..=nmid {
+        let mut v = versions.last().unwrap().clone();
+        let owner = [vec![format!("c17m{k}").into_bytes()], apex.clone()].concat();
+        v.sets.insert(m::key_of(&owner, rr::A), m::SetM { owner: owner.clone(), rtype: rr::A, ttl: 30, rdatas: vec![vec![192, 0, 2, k as u8]] });
+        v.soa.serial = rs::add(a, ((step / (nmid as u32 + 1)) * k as u32).max(k as u32));
+        versions.push(v);
+    }
+    {
+        // the current version holds everything the intermediate ones added
+        let last = versions.last().unwrap().clone();
+        for (k, set) in last.sets.iter() {
+            new.sets.entry(k.clone()).or_insert_with(|| set.clone());
+        }
+    }
+    versions.push(new.clone());
+    let mut diffs = vec![];
+    for w in versions.windows(2) {
+        match model_diff(apex, &w[0], &w[1]) {
+            Ok(d) => diffs.push(std::sync::Arc::new(d)),
+            Err(_) => return Ok(None),
+        }
+    }
+    let zone = match zone_from_version(apex, &new) {
+        Ok(z) => z,
+        Err(_) => return Ok(None),
     };
-    let provider = LooseProvider { zone, diffs: vec![std::sync::Arc::new(diff)], strict };
+    let provider = LooseProvider { zone, diffs, strict };
     let req = mk_request(apex, &ReqOpts { ixfr_from: Some(client), udp: None, reserve: 0, id });
     let msgs = block_on_paused(serve_loose(provider, &req))?;
     let recs = records_of(&msgs)?;
@@ -181,9 +209,9 @@ fn ixfr_shape(apex: &Vec<Vec<u8>>, old_t: &VersionM, new_t: &VersionM, a: u32, s
     let client_view: ClientView = match zone_from_version(apex, &old) {
         Ok(old_zone) => {
             let rx = block_on_paused(receive(&old_zone, &msgs, false));
-            (rx.err.as_ref().map(|e| e.stage), rx.kinds.clone(), rx.interp_finished, rx.updater_finished)
+            (rx.err.as_ref().map(|e| e.stage), rx.kinds.clone(), rx.interp_finished, rx.updater_finished, soa_serial_of(&rx.after_drop, apex).map(|x| x.wrapping_sub(a)), rx.after_drop.len())
         }
-        Err(_) => (Some("setup"), vec![], false, false),
+        Err(_) => (Some("setup"), vec![], false, false, None, 0),
     };
     Ok(Some((
         recs.into_iter()
@@ -237,11 +265,17 @@ pub fn run_ixfr(data: &[u8], ctx: &mut Ctx) -> CaseResult {
     let id = u16_(&mut u);
     let strict = chance(&mut u, 100);
     ctx.class(if strict { "ixfr-provider-strict" } else { "ixfr-provider-loose" });
+    // number of intermediate versions between the previous and the current one
+    let nmid = (pick(&mut u, 3)).min((step as usize).saturating_sub(1));
+    ctx.class(format!("ixfr-history-of-{}-diffs", nmid + 1));
     let b = rs::add(a, step);
     let client = a.wrapping_add(client_off);
     let straddle = (a as u64 + step as u64) >= (1u64 << 32) || (a as u64 + client_off as u64) >= (1u64 << 32);
     let half = [a, b, client].iter().any(|&x| x == 0x7FFF_FFFF || x == 0x8000_0000 || x == 0xFFFF_FFFF || x == 0);
     ctx.class(format!("ixfr-client-{relation}"));
+    if straddle && nmid > 0 {
+        ctx.class("ixfr-multi-diff-history-straddles-wrap");
+    }
     if straddle {
         ctx.class("ixfr-serials-straddle-wrap");
         ctx.class(format!("ixfr-client-{relation}-across-wrap"));
@@ -251,12 +285,12 @@ pub fn run_ixfr(data: &[u8], ctx: &mut Ctx) -> CaseResult {
     }
     ctx.nontrivial(&("ixfr", a, step, client_off));
     ctx.sample(|| format!("previous serial {a:#x}, zone serial {b:#x}, IXFR from client serial {client:#x} ({relation}); reference run with previous serial 0x1000"));
-    let base = match ixfr_shape(&apex, &old_t, &new_t, 0x1000, step, client_off, id, strict) {
+    let base = match ixfr_shape(&apex, &old_t, &new_t, 0x1000, step, client_off, id, strict, nmid) {
         Ok(Some(x)) => x,
         Ok(None) => { ctx.class("users-setup-skipped"); return Ok(()); }
         Err(e) => vfail!("users:ixfr:sender-error", "reference exchange: {e}"),
     };
-    let shifted = match ixfr_shape(&apex, &old_t, &new_t, a, step, client_off, id, strict) {
+    let shifted = match ixfr_shape(&apex, &old_t, &new_t, a, step, client_off, id, strict, nmid) {
         Ok(Some(x)) => x,
         Ok(None) => { ctx.class("users-setup-skipped"); return Ok(()); }
         Err(e) => vfail!("users:ixfr:sender-error", "previous {a:#x} zone {b:#x} client {client:#x}: {e}"),
@@ -267,7 +301,9 @@ pub fn run_ixfr(data: &[u8], ctx: &mut Ctx) -> CaseResult {
     ctx.class(if base.len() == 1 { "ixfr-answer-single-soa" } else { "ixfr-answer-transfer" });
     // record order inside a transfer follows the library's hash maps: compare
     // the leading record, the trailing record and the multiset
-    let norm = |v: &Vec<(Vec<u8>, u16, u32, Vec<u8>)>| { let mut m = v.clone(); m.sort(); (v.first().cloned(), v.last().cloned(), m) };
+    // ... and the sequence of SOA records, which frames the difference
+    // sequences (RFC 1995 section 4: oldest first) and is the same in every run
+    let norm = |v: &Vec<(Vec<u8>, u16, u32, Vec<u8>)>| { let mut m = v.clone(); m.sort(); let soas: Vec<Vec<u8>> = v.iter().filter(|r| r.1 == rr::SOA).map(|r| r.3.clone()).collect(); (v.first().cloned(), v.last().cloned(), m, soas) };
     if norm(&base) != norm(&shifted) {
         vfail!(
             format!("users:ixfr:decision-not-translation-invariant:client-{relation}"),
@@ -279,6 +315,9 @@ pub fn run_ixfr(data: &[u8], ctx: &mut Ctx) -> CaseResult {
     // must take the same decisions about the same stream wherever the serials
     // sit: accept/reject at the same stage, same sequence of update kinds,
     // same finished state
+    if std::env::var_os("C17_DEBUG").is_some() && nmid > 0 && straddle {
+        eprintln!("DEBUG a={a:#x} step={step} nmid={nmid} rel={relation} base={:?} shifted={:?} nrec={}/{}", (base_client.0, base_client.1.len(), base_client.4, base_client.5), (shifted_client.0, shifted_client.1.len(), shifted_client.4, shifted_client.5), base.len(), shifted.len());
+    }
     if base_client.0 != Some("setup") && shifted_client.0 != Some("setup") {
         ctx.class(if base_client.0.is_none() { "ixfr-receiver-accepts" } else { "ixfr-receiver-rejects" });
         if base_client.0.is_none() && base_client.2 && straddle {
@@ -287,8 +326,8 @@ pub fn run_ixfr(data: &[u8], ctx: &mut Ctx) -> CaseResult {
         if base_client != shifted_client {
             vfail!(
                 format!("users:ixfr:receiver-not-translation-invariant:client-{relation}"),
-                "the XFR client treats the same response stream differently depending on where the serials sit: with previous/zone serials 0x1000/{:#x} -> error stage {:?}, {} updates, interpreter finished {}, updater finished {}; with {a:#x}/{b:#x} (same differences) -> error stage {:?}, {} updates, interpreter finished {}, updater finished {}",
-                0x1000u32.wrapping_add(step), base_client.0, base_client.1.len(), base_client.2, base_client.3, shifted_client.0, shifted_client.1.len(), shifted_client.2, shifted_client.3
+                "the XFR client treats the same response stream differently depending on where the serials sit: with previous/zone serials 0x1000/{:#x} -> error stage {:?}, {} updates, interpreter finished {}, updater finished {}, resulting serial (relative) {:?}, {} RRsets; with {a:#x}/{b:#x} (same differences) -> error stage {:?}, {} updates, interpreter finished {}, updater finished {}, resulting serial (relative) {:?}, {} RRsets",
+                0x1000u32.wrapping_add(step), base_client.0, base_client.1.len(), base_client.2, base_client.3, base_client.4, base_client.5, shifted_client.0, shifted_client.1.len(), shifted_client.2, shifted_client.3, shifted_client.4, shifted_client.5
             );
         }
     }
